@@ -236,7 +236,7 @@ def main(ctx):
     n = ctx.n(1500, 20000)
     if not proofs_ok:
         n *= 2
-    for k in range(n):
+    for k in ctx.loop(n):
         one_tree(ctx, k)
         ctx.evaluations += 1
         if len(ctx.violations) >= 5:
